@@ -641,7 +641,9 @@ impl RADAU {
                 let r = cont[i] / scal[i];
                 err += r * r;
             }
-            err = (err / n as Float).sqrt().max(1e-10);
+            err = (err / n as Float).sqrt();
+            // A non-finite estimate must reject the step (`NaN.max(1e-10)` would accept it)
+            err = if err.is_nan() { Float::INFINITY } else { err.max(1e-10) };
 
             // Optional refinement on first/rejected step
             if err >= 1.0 && (first || reject) {
@@ -663,7 +665,9 @@ impl RADAU {
                     let r = cont[i] / scal[i];
                     err += r * r;
                 }
-                err = (err / n as Float).sqrt().max(1e-10);
+                err = (err / n as Float).sqrt();
+            // A non-finite estimate must reject the step (`NaN.max(1e-10)` would accept it)
+            err = if err.is_nan() { Float::INFINITY } else { err.max(1e-10) };
             }
 
             // --- Computation of hnew ---
